@@ -25,7 +25,10 @@ import re
 
 import vplib
 import errno_table
+import errno_orders
+import contracts
 import c11_catalogue as cat
+import c11_contracts
 
 DOC_ERRNO = {0: None, 1: "EINVAL", 2: "ENOPROTOOPT", 3: "EBADMSG", 4: "0", 5: "EDOM", 6: "ENOSYS"}
 MODEL_NAMES = {"SYS": None, "0": "0", "EINVAL": "EINVAL", "EDOM": "EDOM", "EBADMSG": "EBADMSG",
@@ -43,6 +46,12 @@ def run(ctx):
         "translator translate/errno_orders.py (statement classifier: order of checks and writes, NULL / magic tests; its "
         "tables PURE / MUTATOR / SYSTEM_FAIL of callees are hand-written), checked per run by the behavioural tie: "
         "digest unchanged on every refused call, library does not return where the model says a NULL pointer is dereferenced",
+        "translator translate/contracts.py (per function: ordered steps, the CONDITION of every refusing test, category, "
+        "return value; the table ATOMS names the tests outside its expression grammar; tables REPORTING_CALLEES / LATE_CALLEES "
+        "/ PURE_MACROS are hand-written), validated per run by harness/err_contract.c: ~1900 calls with explicit arguments, "
+        "outcome / errno / callback count / category / digest compared with the generated contract run by coqc",
+        "coq/Err/New2Model.v: what the variables of the generated conditions stand for (one environment per function), tied "
+        "by the same rows",
         "hand-written models coq/Err/ContractModel.v, NewModel.v, RefutedModel.v of what each check tests (vnadata family, "
         "vnacal query family, add_calibration, vnacal_new family, parameter family, vnadata_convert, vnaproperty_vset on "
         "map-key paths), tied by small-scope correspondence with the library",
@@ -64,8 +73,20 @@ def run(ctx):
 
     # ------------------------------------------------------------------ 1. translate + proofs
     info = None
+    # contracts (ordered steps with conditions, categories, return values) of the vnacal_new settings, vnacal_apply,
+    # the queries ...: coq/Gen/ContractGen.v
+    cinfo = None
     try:
-        info = errno_table.generate(ctx)
+        cinfo = contracts.generate(ctx)
+        ctx.obligation("T3:contracts", True)
+        ctx.extra["contract_functions"] = [fn for fn, _, _ in cinfo["contracts"]]
+        ctx.extra["verror_paths"] = dict((k, " ".join(v)) for k, v in cinfo["verror"])
+    except (contracts.ContractError, errno_orders.OrderError, OSError) as e:
+        ctx.log("contracts: source no longer matches the accepted idiom:", e)
+        ctx.obligation("T3:contracts", False, str(e))
+        broken["T3:contracts"] = "translate/contracts.py: %s" % e
+    try:
+        info = errno_table.generate(ctx, with_contracts=False)
         ctx.obligation("T3:translate", True)
     except errno_table.TranslateError as e:
         ctx.log("T3: source no longer matches the accepted idiom:", e)
@@ -91,7 +112,8 @@ def run(ctx):
         if info["order_notes"]:
             ctx.notes.append("order translator: " + "; ".join(info["order_notes"]))
         ok, res = ctx.coq_obligations(["Err/OrderProofs.v", "Err/ContractProofs.v", "Err/ContractProofs2.v", "Err/NewProofs.v",
-                                       "Err/DataGetters.v", "Err/HistProofs.v", "Properties_C11.v"])
+                                       "Err/DataGetters.v", "Err/HistProofs.v", "Err/New2Model.v", "Err/New2Proofs.v",
+                                       "Properties_C11.v"])
         if not ok:
             log = getattr(ctx, "_last_coq_log", "")
             m = re.search(r'File "\./([^"]+)", line (\d+)', log)
@@ -114,6 +136,10 @@ def run(ctx):
             cat.model_tie(ctx, runner, drv, broken)
             cat.model_tie2(ctx, runner, drv, broken)
             cat.history_tie(ctx, runner, drv, broken)
+
+    # ------------------------------------------------------------------ 3d. generated contracts against the library
+    if cinfo is not None:
+        c11_contracts.run_tie(ctx, broken, cinfo)
 
     # ------------------------------------------------------------------ 4. catalogue
     cat.run_catalogue(ctx, runner)
